@@ -128,6 +128,13 @@ func GenRegPipe(t *rapid.T, distinctRoots bool) model.Op {
 		op.IDs = append(op.IDs, Roots[pi])
 	}
 	inner := rapid.SliceOfN(rapid.SampledFrom(append(append([]string{}, Filters...), "f0", "f1", "s0", "m0")), 0, 3).Draw(t, "inner")
+	if rapid.IntRange(0, 24).Draw(t, "long") == 0 {
+		// a long chain (nothing in the API bounds the length of a pipeline)
+		n := rapid.SampledFrom([]int{33, 63, 64, 65, 66, 129, 300}).Draw(t, "longLen")
+		for len(inner) < n {
+			inner = append(inner, Filters[len(inner)%len(Filters)])
+		}
+	}
 	op.IDs = append(op.IDs, inner...)
 	op.IDs = append(op.IDs, rapid.SampledFrom(Fmts).Draw(t, "fmt"), rapid.SampledFrom(Sinks).Draw(t, "sink"))
 	return op
